@@ -135,7 +135,7 @@ func c18Gen(r *RNG, id string) *Case {
 			kinds = append(kinds, "bad-suffix", "two-record-reference", "bad-symbol")
 		}
 	case "topranking":
-		kinds = append(kinds, "empty-csv", "bad-csv-header", "no-option")
+		kinds = append(kinds, "empty-csv", "bad-csv-header", "no-option", "csv-bad-amb", "csv-bad-snp", "csv-bad-count", "csv-short-row")
 	case "variants":
 		kinds = []string{"short-row", "long-row", "bad-symbol", "missing-file", "empty-file", "bad-suffix", "width-mismatch"}
 	case "closest", "closest-n":
@@ -243,6 +243,44 @@ func execExitC18(c *Case, dir string) {
 	case "bad-csv-header":
 		f := []string{"q", "t"}[atoi(c.Get("which"))%2]
 		s.files[f+".csv"] = "name,snps,ambs\nx,A1T,\n"
+		for i, a := range args {
+			if a == "{dir}/"+f+".fa" {
+				args[i] = "{dir}/" + f + ".csv"
+			}
+		}
+	case "csv-bad-amb", "csv-bad-snp", "csv-bad-count", "csv-short-row":
+		// a CSV that is not `updown list` output: one data row (first / middle / last) is malformed
+		f := []string{"q", "t"}[atoi(c.Get("which"))%2]
+		fa := s.files[f+".fa"]
+		fc := NewCase("X", "x")
+		fc.Set("ref", strings.Split(strings.TrimSpace(s.files["r.fa"]), "\n")[1])
+		csvTxt, _ := udList(fc, fa)
+		rows := strings.Split(strings.TrimSuffix(csvTxt, "\n"), "\n")
+		at := 1
+		switch c.Get("where") {
+		case "middle":
+			at = 1 + (len(rows)-1)/2
+		case "last":
+			at = len(rows) - 1
+		}
+		cols := strings.Split(rows[at], ",")
+		if len(cols) == 5 {
+			switch kind {
+			case "csv-bad-amb":
+				cols[2] = []string{"2-4-9", "1-x", "3|", "a"}[atoi(c.Get("which"))/2%4]
+				if cols[1] == "" || atoi(c.Get("which"))%3 == 0 {
+					cols[1] = "A1T|C2G" // with and without SNPs on the same row
+				}
+			case "csv-bad-snp":
+				cols[1] = "AxT"
+			case "csv-bad-count":
+				cols[4] = "many"
+			case "csv-short-row":
+				cols = cols[:4]
+			}
+			rows[at] = strings.Join(cols, ",")
+		}
+		s.files[f+".csv"] = strings.Join(rows, "\n") + "\n"
 		for i, a := range args {
 			if a == "{dir}/"+f+".fa" {
 				args[i] = "{dir}/" + f + ".csv"
